@@ -11,6 +11,7 @@
    (C18_easy_lower describes the lowering); of the attributes, only an unrecognised data_type VALUE is rejected — attributes the
    macro does not know ([AOther]) are ignored, as in the Rust code. *)
 From Ebml Require Import Base Tools Spec Writer Reader Derive Proofs.Tactics Proofs.DeriveProofs Proofs.AuditMisc Proofs.WriterProofs Proofs.WriterNoPanic.
+From Ebml Require Import Proofs.DStart.
 
 (* ---- accepted declarations: the table is exactly what was declared ------------------------------------------- *)
 
@@ -28,6 +29,14 @@ Theorem C18_path : forall d sp, derive d = Some sp -> forall v i p,
   In v (with_globals d) -> In (AId i) (v_attrs v) -> In (APath p) (v_attrs v) ->
   Forall2 (resolved (with_globals d)) p (get_path sp i).
 Proof. exact accepted_path. Qed.
+
+(* ... and the table is consistent: whenever the path of a row ends in an identifier p ([e_path e = q ++ [PId p]]), p is a
+   master of the table and the path is p's own path followed by p (a child's path extends its parent's path; paths that end in
+   a placeholder are not constrained).  This is what makes the reader's start hypothesis [dstart] hold by itself
+   (C01_consistent_dstart). *)
+Theorem C18_derive_consistent : forall d sp, derive d = Some sp ->
+  forall e q p, In e sp -> e_path e = q ++ [PId p] -> get_type sp p = Some DMaster /\ get_path sp p ++ [PId p] = e_path e.
+Proof. exact derive_consistent. Qed.
 
 (* ... the empty path when it declares none *)
 Theorem C18_root : forall d sp, derive d = Some sp -> forall v i,
